@@ -243,7 +243,7 @@ where
     }
 }
 
-fn ws_frame(payload: &[u8], opcode: u8, masked: bool, key_seed: u64) -> Vec<u8> {
+pub fn ws_frame(payload: &[u8], opcode: u8, masked: bool, key_seed: u64) -> Vec<u8> {
     let mut f = vec![0x80 | opcode];
     let m = if masked { 0x80 } else { 0 };
     if payload.len() < 126 {
@@ -267,7 +267,7 @@ fn ws_frame(payload: &[u8], opcode: u8, masked: bool, key_seed: u64) -> Vec<u8> 
 }
 
 /// one complete frame at the start of `buf`: (total length, opcode, fin, unmasked payload)
-fn ws_parse(buf: &[u8]) -> Option<(usize, u8, bool, Vec<u8>)> {
+pub fn ws_parse(buf: &[u8]) -> Option<(usize, u8, bool, Vec<u8>)> {
     if buf.len() < 2 {
         return None;
     }
